@@ -191,7 +191,7 @@ theorem qc_readQueue (hq : Quiet inj) (tsNow : Option Nat) (i : Nat) (fuel : Nat
     ∀ (total : Nat) (s : BSt), i < s.ths.length → QC (s.th i) →
       QC ((Backend.readQueue inj tsNow i fuel total s).th i) := by
   induction fuel with
-  | zero => intro total s _ h; exact h
+  | zero => intro total s _ h; rw [readQueue_zero]; exact ((same_rqFin s i total).th i).qc h
   | succ n ih =>
     intro total s hlt hqc
     rw [readQueue_succ]
@@ -261,7 +261,10 @@ theorem readQueue_other (hq : Quiet inj) (tsNow : Option Nat) (i j : Nat) (hj : 
     have : (rqDecode (rqPrep s i) st).th j = (rqPrep s i).th j := by simp only [BSt.th, rqDecode_ths]
     rw [this, hprep]
   induction fuel with
-  | zero => intro total s; rfl
+  | zero =>
+    intro total s; rw [readQueue_zero]; unfold rqFin; split
+    · exact hcom s
+    · rfl
   | succ n ih =>
     intro total s
     rw [readQueue_succ]
@@ -541,7 +544,7 @@ theorem readQueue_actors (hq : Quiet inj) (tsNow : Option Nat) (i : Nat) (fuel :
   have hfin : ∀ (s : BSt) total, (rqFin (rqPrep s i) i total).actors = s.actors := fun s total => by
     unfold rqFin; split <;> rfl
   induction fuel with
-  | zero => intro total s; rfl
+  | zero => intro total s; rw [readQueue_zero]; unfold rqFin; split <;> rfl
   | succ n ih =>
     intro total s
     rw [readQueue_succ]
